@@ -292,6 +292,77 @@ def find_api_functions(ctx: Ctx) -> Tuple[Func, Func]:
     return top, nested
 
 
+def is_store_impl(ctx: Ctx, f: Func) -> bool:
+    c = f_cls(f)
+    return c is not None and (c.qname == STORE_IFACE or STORE_IFACE in ctx.prog.all_bases(c.qname))
+
+
+def holders(ctx: Ctx, names: Iterable[str]) -> Dict[str, Set[str]]:
+    """Non-store functions that perform one of the Store calls, directly or through package helpers:
+    qname -> the functions it reaches that hold the call directly."""
+    names = list(names)
+    key = ("holders", tuple(sorted(names)))
+    memo = ctx.__dict__.setdefault("_holders_memo", {})
+    if key in memo:
+        return memo[key]
+    direct = {f.qname for f in ctx.prog.funcs.values() if not is_store_impl(ctx, f) and store_calls(ctx, f, names)}
+    cg = ctx.callgraph()
+    res: Dict[str, Set[str]] = {q: {q} for q in direct}
+    changed = True
+    while changed:
+        changed = False
+        for q, outs in cg.items():
+            f = ctx.prog.funcs[q]
+            if is_store_impl(ctx, f):
+                continue
+            for o in outs:
+                if o in res and not res[o] <= res.get(q, set()):
+                    res.setdefault(q, set()).update(res[o])
+                    changed = True
+    memo[key] = res
+    return res
+
+
+def effect_sites(ctx: Ctx, f: Func, names: Iterable[str]) -> List[ast.Call]:
+    """Calls in f that perform one of the Store calls: directly, or by calling a package helper that does
+    (the API functions that call the user's function are entry points, not helpers)."""
+    names = list(names)
+    h = {q: v for q, v in holders(ctx, names).items() if not user_calls(ctx.prog.funcs[q])}
+    out = list(store_calls(ctx, f, names))
+    for n in f.own_nodes():
+        if isinstance(n, ast.Call) and n not in out:
+            fs, _ = ctx.prog.callees(f, n, ctx._types)
+            if any(x.qname in h and not is_store_impl(ctx, x) for x in fs):
+                out.append(n)
+    return sorted(out, key=lambda c: (c.lineno, c.col_offset))
+
+
+def unowned_holders(ctx: Ctx, names: Iterable[str], owners: Iterable[Func]) -> List[Tuple[Func, ast.Call]]:
+    """Direct call sites of the Store methods that are not in an owner function nor in a helper whose
+    every call site lies (transitively) in an owner."""
+    names = list(names)
+    owner_q = {f.qname for f in owners}
+    direct = [f for f in ctx.prog.funcs.values() if not is_store_impl(ctx, f) and store_calls(ctx, f, names)]
+    heap = ctx.heap
+    owned: Set[str] = set(owner_q)
+    changed = True
+    while changed:
+        changed = False
+        for q in list(ctx.prog.funcs):
+            if q in owned:
+                continue
+            sites = heap.call_sites.get(q, [])
+            if sites and all(cf.qname in owned for cf, _ in sites):
+                owned.add(q)
+                changed = True
+    out: List[Tuple[Func, ast.Call]] = []
+    for f in direct:
+        if f.qname not in owned:
+            for c in store_calls(ctx, f, names):
+                out.append((f, c))
+    return out
+
+
 def stray_store_calls(ctx: Ctx, names: Iterable[str], allowed: Iterable[Func]) -> List[Tuple[Func, ast.Call]]:
     """Calls of the given Store methods outside the allowed functions and outside Store implementations
     (a wrapper store delegating to the wrapped store is not a stray call)."""
